@@ -307,9 +307,9 @@ fn main() {
     // S7: the implication itself on pairs that are NOT built equal: near-equal pairs (a value-equal pair with one
     // word or one decimal digit of the longer coefficient changed).  Whatever `==` answers, if it says "equal"
     // the hashes must agree and a HashSet must find one through the other; the answer of `==` itself is C02.
-    let mut nb: Vec<BigInt> = [1i64, 5, 7, 12, 99, 1000].iter().map(|v| BigInt::from(*v)).collect();
+    let mut nb: Vec<BigInt> = (1i64..=12).chain([52, 99, 1000]).map(BigInt::from).collect();
     nb.extend([(BigInt::from(1) << 32usize) + 1, (BigInt::from(1) << 64usize) - 1, (BigInt::from(1) << 64usize) + 10, pow10(19) + 7, big(&filler_digits(run.seed(), 40, 40))]);
-    let ne = near_equal_pairs(tier.pick(24, 60), &nb);
+    let ne = near_equal_pairs(tier.pick(40, 60), &nb);
     run.bound("S7_near_equal_pairs", ne.len());
     run.par("S7 a == b implies equal hashes (near-equal pairs)", (ne.len() + 255) / 256, |blk| {
         let mut t = Tally::default();
